@@ -48,7 +48,7 @@ def check(run):
     cov['vacuity']['leaves_per_mutation'] = muts
     if not refs.get('handler') or not refs.get('undefined') or not refs.get('malformed'):
         raise Inconclusive('a reference verdict class was never exercised: ' + str(refs))
-    cov['bounds'] = {'free_form_header_length_completed': done, 'devices': 'T1 (single letters, same mnemonic at several levels), T2 (short/long, optional nodes anywhere, digits, underscore, non-prefix short form, command+query on one node, common commands, sync+async), T3 = T2 + StandardCommands + ErrorCommands, TY, TR, Q2, TL (mnemonics of 13-28 characters, siblings that differ in '_' vs a letter, digits, lower-case-only declarations, one-letter and prefix-related names Z / ZZ / Z_ / Z0)',
+    cov['bounds'] = {'free_form_header_length_completed': done, 'devices': 'T1 (single letters, same mnemonic at several levels), T2 (short/long, optional nodes anywhere, digits, underscore, non-prefix short form, command+query on one node, common commands, sync+async), T3 = T2 + StandardCommands + ErrorCommands, TY, TR, Q2, TL (mnemonics of 13-28 characters, siblings that differ in an underscore vs a letter, digits, one-letter and prefix-related names Z / ZZ / Z_ / Z0)',
                      'outside': 'declaration sets other than the corpus in devices.json (the macro runs inside rustc; its host code cannot be encoded, see DESIGN section 6) -- any change of the macro that alters a corpus tree is caught because the reference does not use the macro; headers longer than the free-form bound that are not near-misses of a declared spelling'}
     run.evidence['assumptions'] = ['reference: short form = declared text minus lower-case letters, long form = full text, optional nodes present or omitted, query mark as declared (mirsym/oracle.py expand_decl / ref_header)',
                                    'standard commands get the ids after the user commands in the order VERSion, ERRor[:NEXT], ERRor:COUNt and are observed through their responses']
